@@ -181,7 +181,10 @@ def run(prop, args, seed, t0):
     # ---- replay failed top-level obligations ------------------------------------------------
     os.makedirs(os.path.join(HERE, "replay", prop), exist_ok=True)
     violation_lines = []
+    confirmed_families = set()
     for o in violations:
+        if family(o["name"]) in confirmed_families:
+            continue  # one replayed witness per obligation family is enough
         fname = os.path.join(HERE, "replay", prop, _safe(o["name"]) + ".json")
         rp = {"property": prop, "obligation": o["name"], "solver": o["backend"], "model": o.get("model"), "verdict": o["verdict"]}
         confirmed = None
@@ -206,6 +209,7 @@ def run(prop, args, seed, t0):
         with open(fname, "w", encoding="utf8") as f:
             json.dump(rp, f, indent=1, default=str)
         if confirmed is True:
+            confirmed_families.add(family(o["name"]))
             violation_lines.append(f"VIOLATION property={prop} replay={fname}")
         elif confirmed is False:
             undecided.append(f"obligation {o['name']} failed in the solver but the counter-model was refuted natively (imprecise VC)")
